@@ -81,6 +81,8 @@ def main(tier, seed):
                         for j in range(npts):
                             p = g.point(t_last + (j + 1) * dbgen.SEC if order == "in" else dbgen.T0 - (j + 1) * dbgen.SEC)
                             p["tags"]["c"] = rng.choice(["x,y", "q\"uote", "line\r\nbreak", "é", "plain"])
+                            if pre in ("ooo", "reopen", None) and order == "in" and (ci % 2 == 0):
+                                p["time"] = None          # a point without a time: the database stamps it - by reading the clock, not the file
                             new.append(p)
                         op = ("insert", new, None, "multiple") if npts > 1 else ("insert", new, None)
                         rec = iotie.recorded_run(tf, str(ck.work / f"rec{ci}"), hist, op, auto, storage_kwargs={"access_mode": amode} if amode else None)
